@@ -226,7 +226,13 @@ func Render(e ast.Expr) string {
 	case *ast.IndexExpr:
 		return Render(v.X) + "[" + Render(v.Index) + "]"
 	case *ast.CompositeLit:
-		return Render(v.Type) + "{…}"
+		var es []string
+		for _, el := range v.Elts {
+			es = append(es, Render(el))
+		}
+		return Render(v.Type) + "{" + strings.Join(es, ", ") + "}"
+	case *ast.KeyValueExpr:
+		return Render(v.Key) + ": " + Render(v.Value)
 	case *ast.ArrayType:
 		return "[]" + Render(v.Elt)
 	case *ast.BinaryExpr:
@@ -419,8 +425,11 @@ func classify(info *types.Info, e ast.Expr) (class, base string, wrap []string) 
 		return "call", Render(e), nil
 	case *ast.UnaryExpr:
 		if v.Op == token.AND {
-			if _, ok := v.X.(*ast.CompositeLit); ok {
-				return "init", Render(e), nil
+			if cl, ok := v.X.(*ast.CompositeLit); ok {
+				if len(cl.Elts) == 0 {
+					return "init", Render(e), nil
+				}
+				return "composite", Render(e), nil
 			}
 			c, b, w := classify(info, v.X)
 			return c, b, append([]string{"addr"}, w...)
@@ -430,7 +439,10 @@ func classify(info *types.Info, e ast.Expr) (class, base string, wrap []string) 
 		c, b, w := classify(info, v.X)
 		return c, b, append([]string{"deref"}, w...)
 	case *ast.CompositeLit:
-		return "init", Render(e), nil
+		if len(v.Elts) == 0 {
+			return "init", Render(e), nil
+		}
+		return "composite", Render(e), nil
 	case *ast.BasicLit:
 		return "literal", v.Value, nil
 	case *ast.Ident, *ast.SelectorExpr:
